@@ -43,6 +43,26 @@ MANIFEST_TEXT["C04"] = {
     "design_ref": "DESIGN.md section 3 / C04",
 }
 
+PLAN["C12"] = {
+    "pkg": "c12",
+    "tests": [
+        {"name": "TestLiteralText", "quick": (400000, 8), "thorough": (16000000, 16)},
+    ],
+    "budget": {"quick": 600, "thorough": 5400},
+    "rule": "templates assembled from segments whose rendering is known by construction (plain text, @@, @+non-name rune, trailing @, "
+            "@word with a disallowed top level, allowed @identifier, and expressions @(Q(s)), @(Q(s) & Q(t)), text(Q(s)), if(true,Q(s),Q(t)), "
+            "array(Q(s),Q(t))[1] with Q = strconv.Quote and s,t from the hostile text generator). Oracle: output equals the model "
+            "rendering; the scanner's expression tokens are exactly the embedded bodies and each parses. Non-trivial = some segment contains "
+            "one of \" \\ ( ) @ or a non-ASCII/control character, or is an @-escape form; distinct by template text.",
+    "assumptions": COMMON_ASSUMPTIONS + ["strconv.Quote is the quoting the implementation itself uses to print literals (TextLiteral.String)"],
+}
+MANIFEST_TEXT["C12"] = {
+    "technique": "property-based testing (rapid): templates built from segments with a by-construction expected rendering; round-trip oracle quote -> scan -> lex -> unquote",
+    "level_text": "Exploration: every generated template rendered exactly as the model prescribes and scanner/parser agreed on expression boundaries; one listed lexer finding is classified, not filtered.",
+    "level_note": "Trusts strconv.Quote as the reference quoting and the segment model (derived from the property statement) as the reference rendering.",
+    "design_ref": "DESIGN.md section 3 / C12",
+}
+
 # every property without a registered check is listed here with the reason (kept current as checks are added)
 NOT_APPLICABLE = [{"property_id": pid, "reason": "check not built yet in this round (planned in DESIGN.md); nothing is claimed for it"}
                   for pid in ALL_IDS if pid not in PLAN]
